@@ -1,3 +1,6 @@
+import B2Z.Props.C04
+import B2Z.Props.C08
+import B2Z.Props.C09
 import B2Z.Props.C11
 import B2Z.Props.C12
 import B2Z.Props.C14
